@@ -50,6 +50,29 @@ pub fn unsafe_block() -> u64 {
     unsafe { RAW }
 }
 
+// C19.R6: `{:?}` of an error value that carries a captured backtrace (stand-in for anyhow::Error: the rule keys on
+// the type path; `Wrapped` shows the transitive closure over local ADTs)
+pub mod anyhow {
+    #[derive(Debug)]
+    pub struct Error(pub String);
+}
+#[derive(Debug)]
+pub struct Wrapped {
+    inner: anyhow::Error,
+}
+
+pub fn debug_formats_error(e: &Wrapped) -> String {
+    format!("{:?}", e)
+}
+
+pub fn display_is_fine(e: &anyhow::Error) -> String {
+    format!("{}", e.0)
+}
+
+pub fn debug_in_panic_only(e: &anyhow::Error) -> u64 {
+    panic!("cannot happen: {:?}", e)
+}
+
 // C19.R3: hash containers (iteration order is per-process random)
 pub struct Registry {
     by_name: HashMap<String, u64>,
